@@ -151,8 +151,7 @@ func runC14(c *Ctx) {
 		}
 		okP := re(`^call:\(lib/common\.Hash\)\.Bytes\(call:kai/state/cstate\.saveConsensusParamsInfo\(call:iface:\(kai/kaidb\.Batcher\)\.NewBatch\(db\), state\.LastHeightConsensusParamsChanged, state\.ConsensusParams\)\)$`).MatchString(got["ConsensusParamsInfoHash"])
 		c.Check("F", fnName(fn)+"/ConsensusParamsInfoHash is the key of the saved consensus-params record", okP, fn.Pos(), 1, "the per-height record names the params record by "+clip(got["ConsensusParamsInfoHash"], 160)+"; the loader looks the record up under this hash, so it must be the key saveConsensusParamsInfo wrote under (ToProto's own hash covers the params only)")
-		next := CallTo(`^kai/state/cstate\.saveValidatorsInfo$`, `state\.NextValidators\)$`)
-		c.OnEveryPath(fn, "save the next validator set", next, "return", AnyReturn())
+		nextSetSavedRule(c)
 		c.OnEveryPath(fn, "save the consensus params", CallTo(`^kai/state/cstate\.saveConsensusParamsInfo$`, ""), "return", AnyReturn())
 		c.OnEveryPath(fn, "write the per-height state record", CallTo(`^kai/rawdb\.WriteConsensusStateHeight$`, ""), "return", AnyReturn())
 		for _, in := range findInstrs(fn, CallTo(`^kai/rawdb\.WriteConsensusStateHeight$`, "")) {
@@ -423,4 +422,13 @@ func (c *Ctx) rawdbKeys() {
 	}
 	sort.Strings(dups)
 	c.Check("T", "kai/rawdb key prefixes are pairwise distinct", len(dups) == 0 && len(vals) >= 30, f.Pos(), len(vals), fmt.Sprintf("%d prefixes; duplicates: %s", len(vals), strings.Join(dups, "; ")))
+}
+
+// nextSetSavedRule (shared by C14 and C12): every save of the state writes the next validator set's record, priorities
+// included; a restarted node reads its rotation from it.
+func nextSetSavedRule(c *Ctx) {
+	if fn := c.Fn("kai/state/cstate", "", "saveState"); fn != nil {
+		next := CallTo(`^kai/state/cstate\.saveValidatorsInfo$`, `state\.NextValidators\)$`)
+		c.OnEveryPath(fn, "save the next validator set", next, "return", AnyReturn())
+	}
 }
